@@ -19,8 +19,11 @@ Memory of a section is a function `Nat → Cell`; what `malloc` returned is `Cel
 
 Assumption of the model: all items of the module have `addr == NULL` when `MIR_load_module` starts
 (a freshly created module, loaded once) and no error function is called (expr items refer to
-expression functions).  `lref` slots are not written by load or link (the engines write them when
-the function is prepared), so they stay `undef` here.
+expression functions).  `lref` slots are not written by load or link, so they stay `undef` here.  The engines write them when
+the function is prepared: `lref l, disp` = address of `l` + disp, `lref l, l2, disp` = (address of `l` −
+address of `l2`) **in bytes** + disp, the addresses being the ones the same engine hands out (for the
+interpreter since 9229ffc3; before it stored the difference of code indexes).  The harness checks exactly
+that, with the same rule for every engine.
 -/
 
 namespace MirVerif.Section
